@@ -105,6 +105,7 @@ def run(ctx, rep):
         t = BuiltinTables(sh)
         rep.touched(CM, "BuiltinCosts::to_ex_budget")
         br.rule_size(t, rep, "R05-SIZE")
+        one_arm_per_variant(rep, "R05-SIZE", "BuiltinCosts::to_ex_budget", sh, CM, t.cost_match)
 
     rep.guarded("R05-SIZE", size)
     if ctx.flow is not None:
@@ -124,35 +125,39 @@ def r_step(sh, rep):
         if v is None:
             rep.bad("R05-STEP", "compute#catch-all", sh.loc(M, arm), "Machine::compute has a catch-all arm: some constructor is stepped without being charged")
             continue
-        rows[v] = arm
+        rows.setdefault(v, [])
+        if not any(a is arm for a in rows[v]):
+            rows[v].append(arm)
     for v in variants:
         if v not in rows:
             rep.bad("R05-STEP", "compute#%s#no-arm" % v, M, "Term::%s has no explicit arm in Machine::compute" % v)
             continue
-        arm = rows[v]
-        where = sh.loc(M, arm)
-        steps = [c for c in calls_in(arm["body"]) if call_name(c) == "step_and_maybe_spend"]
-        kinds = []
-        for c in steps:
-            a = c["args"][0] if c["args"] else None
-            kinds.append(last(a["p"]) if a is not None and a["k"] == "Path" else "?")
-        if v in UNCHARGED:
-            rep.check(not steps, "R05-STEP", "compute#%s" % v, where, "Term::%s must not be charged a step (the ledger machine fails before charging)" % v, sample={"constructor": v, "charges": kinds})
-            continue
-        if len(steps) != 1:
-            rep.bad("R05-STEP", "compute#%s#charge-count" % v, where, "arm charges %d steps %r; exactly one is required (a missing charge under-bills, a second one over-bills every %s node)" % (len(steps), kinds, v))
-            continue
-        if kinds[0] != STEP_FOR.get(v):
-            rep.bad("R05-STEP", "compute#%s#wrong-kind" % v, where, "arm charges StepKind::%s; Term::%s must be charged StepKind::%s" % (kinds[0], v, STEP_FOR.get(v)))
-            continue
-        # first statement of the arm, propagated with `?`
-        body = arm["body"]
-        first = stmt_exprs(body)[0] if body["k"] == "Block" and body["stmts"] else body
-        is_first = first["k"] == "Try" and strip_try(first) is steps[0]
-        if not is_first:
-            rep.bad("R05-STEP", "compute#%s#not-first" % v, where, "the step charge is not the first statement of the arm (or its error is not propagated with `?`): work is done before the step is paid for")
-            continue
-        rep.ok("R05-STEP", "compute#%s" % v, where, sample={"constructor": v, "charged": kinds[0], "position": "first statement, propagated with ?"})
+        # a constructor may be handled by several arms (guards, nested patterns): each of them is a way to take the step
+        for nth, arm in enumerate(rows[v]):
+            where = sh.loc(M, arm)
+            v_key = v if nth == 0 else "%s#arm%d" % (v, nth + 1)
+            steps = [c for c in calls_in(arm["body"]) if call_name(c) == "step_and_maybe_spend"]
+            kinds = []
+            for c in steps:
+                a = c["args"][0] if c["args"] else None
+                kinds.append(last(a["p"]) if a is not None and a["k"] == "Path" else "?")
+            if v in UNCHARGED:
+                rep.check(not steps, "R05-STEP", "compute#%s" % v_key, where, "Term::%s must not be charged a step (the ledger machine fails before charging)" % v, sample={"constructor": v, "charges": kinds})
+                continue
+            if len(steps) != 1:
+                rep.bad("R05-STEP", "compute#%s#charge-count" % v_key, where, "arm charges %d steps %r; exactly one is required (a missing charge under-bills, a second one over-bills every %s node)" % (len(steps), kinds, v))
+                continue
+            if kinds[0] != STEP_FOR.get(v):
+                rep.bad("R05-STEP", "compute#%s#wrong-kind" % v_key, where, "arm charges StepKind::%s; Term::%s must be charged StepKind::%s" % (kinds[0], v, STEP_FOR.get(v)))
+                continue
+            # first statement of the arm, propagated with `?`
+            body = arm["body"]
+            first = stmt_exprs(body)[0] if body["k"] == "Block" and body["stmts"] else body
+            is_first = first["k"] == "Try" and strip_try(first) is steps[0]
+            if not is_first:
+                rep.bad("R05-STEP", "compute#%s#not-first" % v_key, where, "the step charge is not the first statement of the arm (or its error is not propagated with `?`): work is done before the step is paid for")
+                continue
+            rep.ok("R05-STEP", "compute#%s" % v_key, where, sample={"constructor": v, "charged": kinds[0], "position": "first statement, propagated with ?"})
     # StartUp never passed to step_and_maybe_spend anywhere in the crate
     n = 0
     for rel in sh.files():
